@@ -17,10 +17,10 @@ BOUNDS = {
               "values": "distinct concrete tokens"},
     "thorough": {"histories": "HeaderSet: all length-3 sequences + length-4 over add/remove/discard/update; Headers / MultiDict: all length-2 + length-3 over six core mutators"},
 }
-STUBS = ["none"]
+STUBS = ["pickle / copy.deepcopy drivers: harness.c08.clone_value spells the copyreg protocol out over __reduce_ex__ / __getstate__ / __setstate__ / __deepcopy__ of the real containers; every path is validated natively through the real pickle (protocols 2, 4, 5) and copy modules"]
 ASSUMPTIONS = ["HeaderSet item assignment is only exercised with a value not already present elsewhere (otherwise the documented set model does not define the result)",
                "elements / keys are single characters from a five-letter alphabet with both cases"]
-OUTSIDE = ["pickling, deep copies and hashing (C-level protocols)", "CombinedMultiDict, FileMultiDict, EnvironHeaders", "type-converting get", "constructor input variants"]
+OUTSIDE = ["the C drivers of pickle / copy.deepcopy themselves (spelled out over the containers' protocol methods on solver paths, the real modules on every native validation); hashing of mutable containers", "CombinedMultiDict, FileMultiDict, EnvironHeaders", "type-converting get", "constructor input variants"]
 
 ALPHA = [0x61, 0x41, 0x62, 0x42, 0x63]
 
@@ -523,6 +523,124 @@ def body_immutable_hash(I, X, cls="ImmutableMultiDict", shape="swap"):
     return ok, {"equal": bool(eq), "hash_equal": same}
 
 
+def _is_wz(v):
+    return type(v).__module__.startswith("werkzeug.")
+
+
+def clone_value(I, v, how):
+    """what pickle / copy.deepcopy do to a value, spelled out over the protocol methods the
+    containers define (the protocol drivers themselves are C): lists, tuples and dicts are
+    rebuilt member by member, text and numbers are kept, werkzeug containers go through their
+    own __reduce_ex__ / __getstate__ / __setstate__ / __deepcopy__"""
+    if isinstance(v, list) and type(v) is list:
+        return [clone_value(I, x, how) for x in v]
+    if isinstance(v, tuple) and type(v) is tuple:
+        return tuple(clone_value(I, x, how) for x in v)
+    from symex.symdict import SymDict
+
+    if isinstance(v, SymDict):
+        d = SymDict()
+        for k, x in v.s_items():
+            d.s_set(k, clone_value(I, x, how))
+        return d
+    if type(v) is dict:
+        return {k: clone_value(I, x, how) for k, x in v.items()}
+    if _is_wz(v):
+        return persist_clone(I, v, how)
+    return v
+
+
+def persist_clone(I, obj, how):
+    cls = type(obj)
+    if how == "deepcopy" and hasattr(cls, "__deepcopy__"):
+        return I.call(obj.__deepcopy__, ({},))
+    if cls.__reduce_ex__ is not object.__reduce_ex__:
+        # copyreg protocol: callable(*args)
+        fn, args = I.call(obj.__reduce_ex__, (4,))
+        return I.call(fn, tuple(clone_value(I, a, how) for a in args))
+    if isinstance(obj, dict):
+        # object.__reduce_ex__(2+) of a dict subclass: __newobj__(cls), the pairs of obj.items()
+        # set one by one through __setitem__, then __setstate__(__getstate__())
+        clone = cls.__new__(cls)
+        for k, v in list(I.call(obj.items, ())):
+            I.call(clone.__setitem__, (k, clone_value(I, v, how)))
+        state = clone_value(I, I.call(obj.__getstate__, ()), how)
+        I.call(clone.__setstate__, (state,))
+        return clone
+    # plain object: __newobj__(cls) and the instance dict
+    clone = cls.__new__(cls)
+    for k, v in obj.__dict__.items():
+        setattr(clone, k, clone_value(I, v, how))
+    return clone
+
+
+def body_persist(I, X, cls="ImmutableMultiDict", how="pickle", n=3):
+    """pickling and deep-copying are consistent with equality and hashing: the clone has the
+    same type and the same pairs in the same order (repeated keys included), compares equal,
+    hashes equal (immutable variants) and is independent of the original.  On the solver
+    paths the C protocol drivers are spelled out over the methods the containers define
+    (clone_value); the native validation of every path goes through the real pickle / copy
+    modules, so the two must agree on every path."""
+    from werkzeug import datastructures as ds
+
+    klass = getattr(ds, cls)
+    keys = [sym_char(X, f"k{i}") for i in range(n)]
+    pairs = [(k, f"v{i}") for i, k in enumerate(keys)]
+    dictlike = cls in ("ImmutableDict", "ImmutableTypeConversionDict", "TypeConversionDict")
+    if dictlike:
+        for i in range(n):
+            for j in range(i):
+                X.assume(pnot(peq(keys[i], keys[j])))
+    if cls == "CombinedMultiDict":
+        obj = I.call(klass, ([I.call(ds.MultiDict, (pairs[:2],)), I.call(ds.ImmutableMultiDict, (pairs[2:] + pairs[:1],))],))
+    elif cls == "ImmutableList":
+        obj = I.call(klass, (keys,))
+    else:
+        obj = I.call(klass, (pairs,))
+
+    def content(o):
+        if cls == "ImmutableList":
+            return [(x, None) for x in o]
+        if cls == "Headers":
+            return [(k, v) for k, v in o]
+        if dictlike:
+            return [(k, v) for k, v in I.call(o.items, ())]
+        return md_items(I, o)
+
+    before = content(obj)
+    if getattr(I, "native_mode", False):
+        import copy
+        import pickle
+
+        clones = [pickle.loads(pickle.dumps(obj, proto)) for proto in (2, 4, 5)] if how == "pickle" else [copy.deepcopy(obj)]
+    else:
+        clones = [persist_clone(I, obj, how)]
+    ok = True
+    first = content(clones[0])
+    for clone in clones:
+        after = content(clone)
+        ok = pand(ok, type(clone) is klass, len(after) == len(before))
+        if len(after) == len(before):
+            for (a, b), (c, d) in zip(before, after):
+                ok = pand(ok, peq(a, c), b == d)
+        eq = I.call(clone.__eq__, (obj,))
+        ok = pand(ok, eq is not NotImplemented and bool(eq))
+        if cls.startswith("Immutable") and cls != "ImmutableList":
+            ok = pand(ok, bool(I.call(hash, (clone,)) == I.call(hash, (obj,))))
+    if cls in ("MultiDict", "Headers"):
+        # independent of the original
+        I.call(clones[0].add, (keys[0], "later"))
+        again = content(obj)
+        ok = pand(ok, len(again) == len(before))
+    return ok, {"before": before, "after": first}
+
+
+def make_stubs():
+    import copy
+
+    return {copy.deepcopy: lambda I, x, memo=None: clone_value(I, x, "deepcopy")}
+
+
 def body_md_copy(I, X, cls="MultiDict", how="copy", mutate="add"):
     """copies are independent of the original: mutating a copy (also in place, through the
     lists it hands out) leaves the original's content unchanged, and vice versa"""
@@ -621,6 +739,11 @@ def obligations(tier, seed):
         for shape in ("swap", "three", "other"):
             out.append({"name": f"immutable_hash[{cls},{shape}]", "body": "body_immutable_hash", "params": {"cls": cls, "shape": shape},
                         "opts": {"budget_s": 600, "ctx": {"max_cp": 0x7F}}})
+    for cls in ("ImmutableMultiDict", "MultiDict", "ImmutableDict", "ImmutableTypeConversionDict", "CombinedMultiDict", "Headers"):
+        for how in ("pickle", "deepcopy"):
+            for n in ((3,) if quick else (2, 3, 4)):
+                out.append({"name": f"persist[{cls},{how},n={n}]", "body": "body_persist", "params": {"cls": cls, "how": how, "n": n},
+                            "opts": {"budget_s": 600, "ctx": {"max_cp": 0x7F}}, "witness": cls == "ImmutableMultiDict" and how == "pickle" and n == 3})
     other_len = 2
     # thorough: every sequence of length 3 over all mutators, and of length 4 over add / remove /
     # discard / update (the operations that touch both the list and the lookup set)
